@@ -122,7 +122,37 @@ fn cmd_replay(args: &[String]) {
                     let fl = &c.raw["fl"];
                     let zlax = fl["zlax"].as_bool().unwrap_or(false);
                     let logseq = fl["logseq"].as_bool().unwrap_or(false);
-                    let verdict = run::compare(&c.raw["exp"], &o, zlax, logseq);
+                    let mut verdict = run::compare(&c.raw["exp"], &o, zlax, logseq);
+                    let mut sc_override: Option<Value> = None;
+                    let relonly = fl["relonly"].as_bool().unwrap_or(false);
+                    if relonly && verdict.is_some() && o.crash.is_none() {
+                        // only the relation between the two spellings is pinned: a disagreement with the
+                        // specification's outcome is spec drift (empty scope), reported but not a violation
+                        sc_override = Some(json!([]));
+                    }
+                    if fl["okonly"].as_bool().unwrap_or(false) && o.crash.is_none() {
+                        if let Some(w) = &verdict {
+                            if !w.starts_with("expected ") {
+                                // acceptance agrees; the value is owned by another property's statement
+                                sc_override = Some(match fl["own"].as_str() { Some(p) => json!([p]), None => json!([]) });
+                            }
+                        }
+                    }
+                    // relational case: a second spelling of the same rule must behave identically
+                    if verdict.is_none() || sc_override.is_some() {
+                        if let Some(r2) = c.raw.get("rule2") {
+                            let rule2 = aj::from_aj(r2).unwrap_or_else(|e| die(&format!("rule2: {}", e)));
+                            let o2 = run::run_apply(&rule2, &c.data);
+                            let as_exp = run::outcome_aj(&o2);
+                            if o2.crash.is_some() {
+                                verdict = Some(format!("second spelling {} crashed", rule2));
+                                sc_override = None;
+                            } else if let Some(w) = run::compare(&as_exp, &o, false, true) {
+                                verdict = Some(format!("two spellings differ ({}): second spelling {} gives {}", w, rule2, run::outcome_plain(&o2)));
+                                sc_override = None;
+                            }
+                        }
+                    }
                     if let Some(w) = evw.as_mut() {
                         for e in run::events_aj(&o.events) {
                             writeln!(w, "{}", e).unwrap();
@@ -144,7 +174,7 @@ fn cmd_replay(args: &[String]) {
                             let rec = json!({
                                 "line": c.idx + 1, "id": c.raw.get("id").cloned().unwrap_or(Value::Null),
                                 "kind": if o.crash.is_some() {"crash"} else {"mismatch"},
-                                "why": why, "sc": c.raw.get("sc").cloned().unwrap_or(json!([])),
+                                "why": why, "sc": sc_override.clone().unwrap_or_else(|| c.raw.get("sc").cloned().unwrap_or(json!([]))),
                                 "rule": c.rule.to_string(), "data": c.data.to_string(),
                                 "expected": plain_exp(&c.raw["exp"]), "actual": run::outcome_plain(&o),
                                 "profile": profile(),
